@@ -77,7 +77,7 @@ class Ctx(object):
 
     # -- output ------------------------------------------------------------
     def finish(self):
-        ev_dir = os.path.join(VERIF, 'evidence')
+        ev_dir = os.environ.get('VERIF_EVIDENCE_DIR') or os.path.join(VERIF, 'evidence')
         os.makedirs(ev_dir, exist_ok=True)
         total = sum(len(r['instances']) for r in self.rules.values())
         known_failed = len(self.known_hits)
